@@ -72,7 +72,7 @@ func ruleRespClose(r *core.Reporter) {
 	for _, ii := range ir.Ifs(fn) {
 		a := ii.Atom
 		if a.V == nil && a.Op == token.EQL && ((a.X == errv && ir.IsNilConst(a.Y)) || (a.Y == errv && ir.IsNilConst(a.X))) {
-			s := ir.Pt{B: ii.If.Block().Succs[ii.EdgeWhen(true)], I: 0}
+			s := ir.EdgePt(ii.If.Block(), ii.EdgeWhen(true))
 			start = &s
 		}
 	}
@@ -573,7 +573,7 @@ func ruleBucketBound(r *core.Reporter) {
 				return
 			}
 			// on the true side evictLFU is called before the insertion
-			start := ir.Pt{B: bound.If.Block().Succs[bound.EdgeWhen(true)], I: 0}
+			start := ir.EdgePt(bound.If.Block(), bound.EdgeWhen(true))
 			isEvict := func(x ssa.Instruction) bool {
 				c, isC := x.(*ssa.Call)
 				if isC && evict != nil && ir.CalleeOf(c.Common()) == evict {
